@@ -48,7 +48,9 @@ class C18(Prop):
         "cMarkov0_spec", "xMarkov0_spec", "cMarkov1_spec", "xMarkov1_spec",
         "shuffleDP_ok", "cShuffleDP_ok", "xShuffleDP_ok", "dpWalk_edges_once",
         "shuffleDP_checks_never_fire", "shuffleDP_spec", "cShuffleDP_status", "xShuffleDP_status",
-        "vShuffle_spec", "vShuffle_inplace_eq", "qrna_keeps_classes", "qrna_class_perm")]
+        "vShuffle_spec", "vShuffle_inplace_eq", "qrna_keeps_classes", "qrna_class_perm",
+        "roll_returns_first_accepted", "dpFind_returns_first_accepted", "vecShuffle64_perm", "rsqSample_spec",
+        "sampleDirty_never_gap", "sampleDirty_sampled_vector_zeros")]
     claimed = True
     technique = ("Lean 4 proof (Fisher-Yates/swap-loop invariants, permutation and support theorems for every generator state) + "
                  "exact differential correspondence of the executable model (on the C09 generator model) with the ASan/UBSan-built C code + python property monitors on the C output")
@@ -72,7 +74,7 @@ class C18(Prop):
                    "the C three-statement swap is Array.swapIfInBounds; all indices are proved in range (RegionPerm/WinPerm/RowsInv hypotheses), ASan checks the C side",
                    "allocation never fails, except ESL_ALLOC of size 0 (esl_msashuffle_{C,X}QRNA on zero-length sequences returns eslEMEM - modelled, outside 'alignments as in C03')",
                    "DChoose/FChoose arithmetic is binary64 (Lean Float, same libm-free operations); theorems about Markov/IID support are over an abstract lawful number type (L0 not proved)",
-                   "not modelled: esl_rsq_Sample, esl_rsq_SampleDirty, esl_vec_*Shuffle64 (ESL_RAND64), D/F/L variants of esl_vec_*Shuffle/Reverse (same code shape as the I variant)"]
+                   "esl_rsq_SampleDirty's sampled-vector mode is modelled in binary64 only (esl_rnd_Dirichlet(NULL) = normalised -log(UniformPositive), libm log; bit-identical in the differential run); general esl_rnd_Gamma/Dirichlet with alpha != NULL are not modelled"]
     rule = ("cases = seed + 1..8 shuffler calls (+ a final generator peek); non-trivial = at least one ok output of length >= 3 that differs from its input; distinct by output trace")
 
     # ------------------------------------------------------------------ generators
@@ -172,6 +174,17 @@ class C18(Prop):
         letters = list(UP + b"abcdefghijklmnopqrstuvwxyz0123456789"); rng.shuffle(letters)
         return "%s abc=%s p=%s L=%d" % (which, hx(letters[:K]), ps, L)
 
+    def misc_op(self, rng):
+        r = rng.random()
+        if r < 0.55:
+            return "sample flag=%d L=%d pre=%d" % (rng.choice([0, 1, 2, 3, 4, 5, 6, 7, 8, 9, 10, 11, 12, 13, rng.randrange(1, 13)]),
+                                                   rng.choice([0, 1, 2, rng.randrange(0, 80), rng.randrange(0, 600)]), rng.randrange(2))
+        abc = rng.choice(["dna", "amino"]); Kp = 18 if abc == "dna" else 29
+        if rng.random() < 0.5:
+            return "sampledirty abc=%s p=none ret=%d L=%d" % (abc, rng.randrange(2), rng.choice([0, 1, 2, rng.randrange(0, 60), rng.randrange(0, 400)]))
+        p = self.rand_p(rng, Kp, False)
+        return "sampledirty abc=%s p=%s L=%d" % (abc, ",".join(dbits(x) for x in p), rng.choice([0, 1, 2, rng.randrange(0, 60), rng.randrange(0, 400)]))
+
     def rand_msa(self, rng, dig, gapcode=None, K=4):
         nseq = rng.choice([1, 1, 2, 2, 3, 4, 5, 8, rng.randrange(1, 13)])
         alen = rng.choice([0, 1, 2, 3, rng.randrange(0, 12), rng.randrange(0, 60), rng.randrange(0, 200)])
@@ -236,6 +249,7 @@ class C18(Prop):
         elif w in ("ckmers", "xkmers"): n = len(unhx(a["s"])) // int(a["k"])
         elif w in ("msashuffle", "bootstrap"): n = len(unhx(a["rows"].split(",")[0]))
         elif w == "permute": n = len(a["rows"].split(","))
+        elif w == "sample": n = {1: 62, 2: 52, 3: 26, 4: 26, 5: 10, 6: 22, 7: 33, 8: 94, 9: 6, 10: 2, 11: 95, 12: 32}.get(int(a["flag"]))
         elif w.endswith("shuffle") and "v" in a: n = 0 if a["v"] == "-" else len(a["v"].split(","))
         elif w in ("xiid", "xfiid") and a.get("p") == "none": n = int(a["K"])
         vals = [0, 1, 0xffffffff, 0xfffffffe, 0x80000000, 0x7fffffff]
@@ -270,6 +284,8 @@ class C18(Prop):
     def cases(self, ctx):
         rng = ctx.rng
         n = 10000 if ctx.tier == "quick" else 120000
+        import os
+        if os.environ.get("C18_N"): n = int(os.environ["C18_N"])       # used only by the mutation-sweep script (first, cheap pass)
         out = []
         for c in range(n):
             seed = rng.choice([1, 2, 3, 42, 0x7fffffff, 0x80000000, 0xffffffff, rng.randrange(1, 1 << 32), rng.randrange(1, 1 << 32), rng.randrange(1, 1 << 32)])
@@ -295,8 +311,15 @@ class C18(Prop):
                         o = "%s v=%s ip=%d" % (rng.choice(["ishuffle", "ireverse", "dshuffle", "fshuffle", "lshuffle", "dreverse", "freverse", "lreverse", "vcreverse"]),
                                                ",".join(map(str, v)) if v else "-", rng.randrange(2))
                     else: o = self.msa_op(rng)
+                    if rng.random() < 0.06: o = self.misc_op(rng)
                     if not fast and rng.random() < 0.12: ops.append(self.poke_for(rng, o))
                     ops.append(o)
+                if rng.random() < 0.06:      # 64-bit generator and the Shuffle64 family
+                    ops.append("seed64 s=%d" % rng.choice([1, 2, 42, 2**63, 2**64 - 1, rng.randrange(1, 1 << 64)]))
+                    for _ in range(rng.randrange(1, 4)):
+                        v = [rng.randrange(-50, 50) for _ in range(rng.choice([0, 1, 2, 3, rng.randrange(0, 60)]))]
+                        ops.append("%sshuffle64 v=%s" % (rng.choice("dfil"), ",".join(map(str, v)) if v else "-"))
+                    ops.append("peek64")
             ops.append("peek")
             out.append({"name": "gen%d" % c, "ops": ops, "sticky": 1})
         out += self.sweep(ctx)
@@ -408,6 +431,43 @@ class C18(Prop):
     def check_one(self, w, a, l):
         if w == "peek": return None if l.startswith("ok ") else "peek failed"
         if w == "poke": return None if l == "ok" else "poke failed"
+        if w in ("seed64", "peek64"): return None if l.startswith("ok") else "%s failed" % w
+        if w.endswith("shuffle64"):
+            v = [] if a["v"] == "-" else [int(x) for x in a["v"].split(",")]
+            if not l.startswith("ok "): return "returned %s" % l
+            o = [] if l[3:] == "-" else [int(x) for x in l[3:].split(",")]
+            return None if sorted(v) == sorted(o) else "not a permutation"
+        if w == "sample":
+            fl, L = int(a["flag"]), int(a["L"])
+            if not 1 <= fl <= 12: return None if l == "einval" else "invalid class flag must give einval, got %s" % l
+            if not l.startswith("ok "): return "returned %s" % l
+            o = unhx(l[3:])
+            if len(o) != L: return "length %d != %d" % (len(o), L)
+            dig = lambda x: 48 <= x <= 57
+            upp = lambda x: 65 <= x <= 90
+            low = lambda x: 97 <= x <= 122
+            cls = {1: lambda x: dig(x) or upp(x) or low(x), 2: lambda x: upp(x) or low(x), 3: low, 4: upp, 5: dig,
+                   6: lambda x: dig(x) or 65 <= x <= 70 or 97 <= x <= 102, 7: lambda x: x <= 31 or x == 127, 8: lambda x: 33 <= x <= 126,
+                   9: lambda x: 9 <= x <= 13 or x == 32, 10: lambda x: x in (9, 32), 11: lambda x: 32 <= x <= 126,
+                   12: lambda x: 33 <= x <= 126 and not (dig(x) or upp(x) or low(x))}[fl]
+            bad = [c for c in o if c >= 128 or not cls(c)]
+            return "character %d is not in the requested class" % bad[0] if bad else None
+        if w == "sampledirty":
+            L = int(a["L"])
+            if not l.startswith("ok "): return "returned %s" % l
+            o = unhx(l[3:].split()[0])
+            if len(o) != L + 2 or o[0] != 255 or o[-1] != 255: return "bad length/sentinels"
+            if a["p"] == "none":
+                K, Kp = (4, 18) if a.get("abc", "dna") == "dna" else (20, 29)
+                bad = [c for c in o[1:-1] if c in (K, Kp - 2, Kp - 1) or c >= Kp]
+                if bad: return "sampled vector mode emitted gap/nonresidue/missing code %d" % bad[0]
+                if " p=" in l:
+                    p = [struct.unpack("<d", struct.pack("<Q", int(t, 16)))[0] for t in l.split(" p=")[1].split(",")]
+                    if len(p) != Kp or p[K] != 0.0 or p[Kp - 2] != 0.0 or p[Kp - 1] != 0.0 or abs(sum(p) - 1.0) > 1e-9 or min(p) < 0: return "returned probability vector is malformed"
+                return None
+            p = [struct.unpack("<d", struct.pack("<Q", int(t, 16)))[0] for t in a["p"].split(",")]
+            bad = [c for c in o[1:-1] if c >= len(p) or p[c] == 0.0]
+            return "emitted symbol %d of zero probability" % bad[0] if bad else None
         if w in ("cshuffle", "ckmers", "cwindows", "creverse", "cshuffledp", "cmarkov0", "cmarkov1"):
             s = unhx(a["s"]); L = len(s)
             if w in ("cshuffledp", "cmarkov0", "cmarkov1") and not all(is_alpha(c) for c in s):
@@ -545,7 +605,8 @@ class C18(Prop):
 
     def extra_evidence(self, ctx):
         # measured input distribution of the generated cases (re-generated with the same seed)
-        import random
+        import random, os
+        if os.environ.get("C18_N"): return {}
         ctx2 = type("C", (), {})(); ctx2.tier = ctx.tier
         ctx2.rng = random.Random(ctx.seed * 7919 + 13)
         ops = Counter(); lens = Counter(); n = 0
